@@ -249,6 +249,10 @@ class JointRecurrencePlot(RecurrencePlot):
         :arg threshold: The recurrence threshold. Give for both time series
             separately.
         """
+        #  one value for each of the two time series (checked before anything
+        #  is changed)
+        _, _ = threshold
+
         if self.silence_level <= 1:
             print("Calculating joint recurrence plot at fixed threshold...")
 
@@ -289,6 +293,10 @@ class JointRecurrencePlot(RecurrencePlot):
         :arg threshold_std: The recurrence threshold in units of the standard
             deviation of the time series. Give for both time series separately.
         """
+        #  one value for each of the two time series (checked before anything
+        #  is changed)
+        _, _ = threshold_std
+
         if self.silence_level <= 1:
             print("Calculating recurrence plot at fixed threshold "
                   "in units of time series STD...")
@@ -309,6 +317,10 @@ class JointRecurrencePlot(RecurrencePlot):
         :arg recurrence_rate: The recurrence rate. Give for both time series
             separately.
         """
+        #  one value for each of the two time series (checked before anything
+        #  is changed)
+        _, _ = recurrence_rate
+
         if self.silence_level <= 1:
             print("Calculating joint recurrence plot at "
                   "fixed recurrence rate...")
